@@ -67,12 +67,12 @@ Bad(name, cond) == IF cond THEN {} ELSE {<<cid, name>>}
 
 Init == /\ c = [mode |-> "none", dir |-> <<>>, nst |-> <<>>, fail |-> <<0, 0>>, count |-> 0, dry |-> FALSE, baseline |-> 0] /\ cid = 0 /\ dump = "" /\ startdump = ""
         /\ dj = <<>> /\ dr = <<>> /\ startj = <<>> /\ startr = <<>> /\ phase = "idle" /\ lastcls = "" /\ lastdry = FALSE
-        /\ fixed = FALSE /\ failed = FALSE /\ fb = FALSE /\ crashes = 0 /\ inflight = <<0, 0>> /\ cmds = 0 /\ l = 1 /\ viol = {}
+        /\ fixed = FALSE /\ failed = FALSE /\ fb = FALSE /\ crashes = 0 /\ inflight = <<>> /\ cmds = 0 /\ l = 1 /\ viol = {}
 
 Reset == /\ Is("reset")
          /\ c' = Ev.cfg /\ cid' = Ev.c /\ dump' = Ev.dump /\ startdump' = Ev.dump
          /\ dj' = <<>> /\ dr' = [ff \in DOMAIN Ev.cfg.nst |-> NoRev] /\ startj' = <<>> /\ startr' = dr'
-         /\ phase' = "idle" /\ lastcls' = "" /\ lastdry' = FALSE /\ fixed' = FALSE /\ failed' = FALSE /\ fb' = FALSE /\ crashes' = 0 /\ inflight' = <<0, 0>> /\ cmds' = 0
+         /\ phase' = "idle" /\ lastcls' = "" /\ lastdry' = FALSE /\ fixed' = FALSE /\ failed' = FALSE /\ fb' = FALSE /\ crashes' = 0 /\ inflight' = <<>> /\ cmds' = 0
          /\ UNCHANGED viol
 Cmd == /\ Is("cmd")
        /\ startj' = dj /\ startr' = dr /\ startdump' = dump /\ UNCHANGED dump /\ phase' = "running" /\ lastdry' = Ev.dry /\ cmds' = cmds + 1 /\ fb' = failed
@@ -83,7 +83,7 @@ Exit == /\ Is("exit")
         /\ UNCHANGED <<c, cid, dj, dr, dump, startdump, startj, startr, lastdry, fixed, fb, crashes, inflight, cmds, viol>>
 Crash == /\ Is("crash")
          /\ phase' = "crashed" /\ lastcls' = "crash" /\ crashes' = crashes + 1
-         /\ inflight' = <<Ev.f, Ev.i>>       \* the statement in flight at the crash point (0,0 if none)
+         /\ inflight' = Append(inflight, <<Ev.f, Ev.i>>)       \* the statements in flight at the crash points (0,0 if none), one per crash
          /\ UNCHANGED <<c, cid, dj, dr, dump, startdump, startj, startr, lastdry, fixed, failed, fb, cmds, viol>>
 \* the repair may also change the length of the file (Ev.nst: the statement counts from now on)
 Fix == /\ Is("fix") /\ fixed' = TRUE /\ c' = [c EXCEPT !.nst = Ev.nst]
@@ -108,13 +108,13 @@ Disk == /\ Is("disk")
                          \cup Bad("FailState", (lastcls = "stmt-failed" /\ wouldFail /\ crashes = 0) => FailStateOK(startj, startr, j, rv))
                          \cup Bad("SuccessState", (lastcls = "ok" /\ crashes = 0) => SuccessOK(startj, startr, j, rv))
                          \* C10 recovery: after crashes a successful rerun leaves every wanted statement present,
-                         \* exactly once in file/all mode, and at most the in-flight statement twice in none mode
+                         \* exactly once in file/all mode, and in none mode repeated at most once per crash that interrupted it
                          \cup Bad("Recovery", (lastcls = "ok" /\ crashes > 0 /\ c.count = 0) =>
                                   /\ \A ff \in Files : DoneIn(rv, ff)
                                   /\ \A ff \in Files : \A ii \in 1..NS(ff) :
                                        /\ Cnt(j, ff, ii) >= 1
                                        /\ (ModeFor(ff) \in {"file", "all"} => Cnt(j, ff, ii) = 1)
-                                       /\ (Cnt(j, ff, ii) > 1 => (<<ff, ii>> = inflight /\ Cnt(j, ff, ii) <= 1 + crashes)))
+                                       /\ Cnt(j, ff, ii) <= 1 + Cardinality({k \in DOMAIN inflight : inflight[k] = <<ff, ii>>}))   \* one repetition per crash that caught it in flight
                          \cup Bad("RerunAfterCrashSucceeds", (crashes > 0 /\ ~wouldFail /\ ~Conflict) => lastcls = "ok")))
         /\ UNCHANGED <<c, cid, startj, startr, lastcls, lastdry, fixed, failed, fb, crashes, inflight, cmds>>
 Hook == /\ Is("hook")
